@@ -18,7 +18,7 @@ use std::panic::{catch_unwind, AssertUnwindSafe};
 use std::pin::Pin;
 use std::sync::atomic::{AtomicU64, AtomicUsize, Ordering};
 use std::sync::mpsc::{channel, Receiver as ChanRx, RecvTimeoutError, Sender};
-use std::sync::{Arc, Barrier, Mutex};
+use std::sync::{Arc, Mutex};
 use std::task::{Context, Poll, Wake, Waker};
 use std::thread;
 use std::time::{Duration, Instant};
@@ -382,6 +382,29 @@ pub fn run_case(case: &Value) -> Value {
 
 // ------------------------------------------------------------------------------------- stress
 
+/// Spinning start gate: all threads leave it within a few nanoseconds of each other (a futex barrier
+/// releases them microseconds apart, which is longer than a whole run).
+struct Gate {
+    arrived: AtomicUsize,
+    n: usize,
+}
+impl Gate {
+    fn new(n: usize) -> Gate {
+        Gate { arrived: AtomicUsize::new(0), n }
+    }
+    fn wait(&self) {
+        self.arrived.fetch_add(1, Ordering::SeqCst);
+        let start = Instant::now();
+        while self.arrived.load(Ordering::SeqCst) < self.n {
+            if start.elapsed() > Duration::from_millis(2) {
+                thread::yield_now();
+            } else {
+                std::hint::spin_loop();
+            }
+        }
+    }
+}
+
 struct Rng(u64);
 impl Rng {
     fn next(&mut self) -> u64 {
@@ -416,7 +439,7 @@ fn stress_run(n: usize, ops: usize, seed: u64, patience: Duration) -> Value {
     let log = Log::new();
     let (voters, mut rx) = make(n);
     let (wc, waker) = log_waker(&log);
-    let barrier = Arc::new(Barrier::new(n + 1));
+    let barrier = Arc::new(Gate::new(n + 1));
     let mut handles = Vec::new();
     for (t, v) in voters.into_iter().enumerate() {
         let (log, barrier) = (log.clone(), barrier.clone());
